@@ -14,11 +14,18 @@ import json
 import os
 import vlib
 
-INV_OF = {  # which property an invariant of Pool.tla / predicate of TracePool.tla belongs to
-    "C12": {"IdsAtEnd", "AllTokensUnlessCut", "StartedOnlyFromTokens", "KeepsRunning", "NotBeforeProfile",
-            "CreatedWithoutToken", "CreatedBeforeTokenInstant", "StartupTokensMonotone", "StartupTokenBeforeStart",
-            "StartupProfileInstants", "MetricsInstances"},
-}
+
+
+def tlc_trace(path, timeout=3000, heap="6g"):
+    """TracePool.tla over one trace file.  A TLC process that dies without a result (killed from outside, the
+    machine is shared) is started once more; a second failure is reported as machinery failure by the caller."""
+    for attempt in (0, 1):
+        tr = vlib.tlc("TracePool", "TracePool.cfg", env={"VERIF_TRACE": path, "VERIF_SEED": vlib.seed()}, workers=1,
+                      deadlock=False, timeout=timeout, heap=heap)
+        if not tr.error or tr.kind == "timeout":
+            break
+        vlib.log("TracePool run failed (%s rc=%s), %s" % (tr.kind, tr.rc, "retrying" if attempt == 0 else "giving up"))
+    return tr
 
 
 def outcomes_of(r):
@@ -106,8 +113,7 @@ def validate(v, pid, rows, d, tag):
             break
         p = os.path.join(d, "%s_%d.ndjson" % (tag, attempt))
         write_rows(p, rows)
-        tr = vlib.tlc("TracePool", "TracePool.cfg", env={"VERIF_TRACE": p, "VERIF_SEED": vlib.seed()}, workers=1,
-                      deadlock=False, timeout=3000, heap="6g")
+        tr = tlc_trace(p)
         if tr.error:
             raise vlib.MachineryError("TracePool failed: %s\n%s" % (tr.kind, tr.out[-3000:]))
         states += tr.distinct
@@ -231,11 +237,13 @@ def binding_selftest(rows, d):
         name, rr = m
         p = os.path.join(d, "selftest_%s.ndjson" % name)
         write_rows(p, rr)
-        return name, vlib.tlc("TracePool", "TracePool.cfg", env={"VERIF_TRACE": p, "VERIF_SEED": vlib.seed()}, workers=1,
-                              deadlock=False, timeout=600, heap="2g")
+        return name, tlc_trace(p, timeout=600, heap="2g")
     with concurrent.futures.ThreadPoolExecutor(max_workers=3) as ex:
         for name, tr in ex.map(one, muts):
-            if tr.error or not tr.violation:
+            if tr.error:
+                raise vlib.MachineryError("binding self-test: TLC failed on corrupted trace '%s' (%s rc=%s)\n%s"
+                                          % (name, tr.kind, tr.rc, tr.out[-2500:]))
+            if not tr.violation:
                 raise vlib.MachineryError("binding self-test: corrupted trace '%s' was not rejected by TracePool.tla\n%s"
                                           % (name, tr.out[-1500:]))
     return [m[0] for m in muts]
